@@ -43,22 +43,27 @@ def mainCurvaturesAtDesignPoint( dim, g, dg, distObjs, corrMat,
     _, J = natafTrans.getX( uCoord )
     JInv = np.linalg.inv( J )
 
-    if dg is None:
-        dg = gradient( g, dim, n=1, dx=dx )
-    
-    lsfGradAtX = [ dgi( xCoord ) for dgi in dg ]
-    lsfGradAtU = np.dot( JInv, lsfGradAtX )
-    lsfGradNormAtU = np.linalg.norm( lsfGradAtU )
+    # The limit state function in U space
+    def lsfAtU( U ):
+        return g( natafTrans.getX( U )[ 0 ] )
 
+    if dg is None:
+        dgAtU = gradient( lsfAtU, dim, n=1, dx=dx )
+        lsfGradAtU = np.array( [ dgi( list( uCoord ) ) for dgi in dgAtU ], dtype=float )
+    else:
+        # JInv is partialX / partialU: chain rule for the gradient w.r.t. U
+        lsfGradAtX = [ dgi( xCoord ) for dgi in dg ]
+        lsfGradAtU = np.dot( JInv.T, lsfGradAtX )
+    lsfGradNormAtU = np.linalg.norm( lsfGradAtU )
     alignVec = -1 * lsfGradAtU / lsfGradNormAtU
     A = np.eye( dim )
     B, _ = gramSchmidOrth( A, alignVec=alignVec )
     H = np.array( B[ :, [ idx for idx in range( 1, dim )] + [ 0 ] ], dtype=float ).T
-    
-    hm = hessianMatrix( g, dim, dx=dx )
-    lsfHmAtX = [ [ hmij( xCoord ) for hmij in hmi ] for hmi in hm ]
-    lsfHmAtU = np.dot( np.dot( JInv, lsfHmAtX ), JInv.T )
-
+    # The Hessian is taken in U space directly so that the curvature of the 
+    # transformation itself is included
+    hm = hessianMatrix( lsfAtU, dim, dx=dx )
+    lsfHmAtU = np.array( [ [ hmij( list( uCoord ) ) for hmij in hmi ] for hmi in hm ], 
+                         dtype=float )
     HBH = np.dot( np.dot( H, lsfHmAtU / lsfGradNormAtU ), H.T )
     eigVal = np.linalg.eig( HBH[ : dim - 1, : dim - 1 ] )
     ks = eigVal[ 0 ].tolist()
